@@ -14,3 +14,7 @@ package color
 //@   pure
 //@   ensures 0 <= ret && ret <= len(s)
 //@   loop 1 invariant 0 <= ret && ret <= rangepos() && rangepos() <= len(s)
+
+// highlighting one rune of a word builds a new string from a local builder
+//@ func HighlightSingleRune
+//@   pure
